@@ -514,24 +514,53 @@ def gen_live_cancel(r, prof):
     sc["live"]["kw"]["sync_workers"] = k
     sc["live"]["vpool"] = True
     sc["live"]["cancel"] = cancel
-    # NOT generated (a defect of the unchanged code, reported - corpus/C02/finding_sync_function_submitted_after_pool_shutdown.json):
-    # a callback of a SYNC-function message that is still suspended BEFORE it hands its function to the pool (in an awaiting
-    # pre_execute hook, in a when_received acknowledgement that takes time) when the cancellation shuts the pool down.  It then
-    # gets "cannot schedule new futures after shutdown" as its result and is acknowledged without having run.  Sync-function
-    # messages therefore reach the pool without suspending: an awaiting pre_execute hook becomes a post_execute one, a
-    # when_received acknowledgement completes at once.
-    for m in sc["msgs"]:
-        if m["kind"] == "ok" and m.get("style") == "sync":
-            if (m.get("hook_aw") or {}).get("where") == "pre":
-                m["hook_aw"]["where"] = "post"
-            if sc["ack_type"] == "when_received" and (m.get("ack_us") or m["ack"] not in ("none", "sync", "async")):
-                m["ack"] = "async"
-                m.pop("ack_us", None)
+    # Known finding D16 (known_findings.json, signature sync_function_submitted_after_pool_shutdown; replay
+    # corpus/C02/known/d16_sync_function_submitted_after_pool_shutdown.json): a callback of a SYNC-function message that is still
+    # suspended BEFORE it hands its function to the pool (in an awaiting pre_execute hook, in a when_received acknowledgement
+    # that takes time) when the cancellation shuts the pool down gets "cannot schedule new futures after shutdown" as its
+    # result and is acknowledged without having run.  Such inputs ARE generated (the neighbourhood is explored; the property
+    # file classifies exactly that shape as the known finding) unless the profile says presubmit_restricted - a property
+    # that has no `known` entry for it keeps sync-function messages reaching the pool without suspending: an awaiting
+    # pre_execute hook becomes a post_execute one, a when_received acknowledgement completes at once.
+    if prof.get("presubmit_restricted"):
+        for m in sc["msgs"]:
+            if m["kind"] == "ok" and m.get("style") == "sync":
+                if (m.get("hook_aw") or {}).get("where") == "pre":
+                    m["hook_aw"]["where"] = "post"
+                if sc["ack_type"] == "when_received" and (m.get("ack_us") or m["ack"] not in ("none", "sync", "async")):
+                    m["ack"] = "async"
+                    m.pop("ack_us", None)
     return sc
 
 
 def is_live(sc):
     return sc.get("live") is not None
+
+
+# known finding D16 (known_findings.json): shared by the property files that see runs of gen_live_cancel
+SIG_D16 = "sync_function_submitted_after_pool_shutdown"
+POOL_CLOSED = "RuntimeError: cannot schedule new futures after shutdown"
+
+
+def d16_facts(sc, f, i, ack_t):
+    """the elements of D16's signature for message i whose ack callable was invoked at ack_t (all read from the scenario and
+    the raw log): live run_receiver_task run | the worker task was cancelled before that ack | sync function | it never
+    started | the error its result carries is the RuntimeError of a shut-down executor | when_executed / when_saved"""
+    return dict(live=is_live(sc), worker_cancelled_before_ack=f.cancel_t is not None and ack_t is not None and ack_t >= f.cancel_t,
+                sync=sc["msgs"][i].get("style") == "sync", never_started=not f.bodyin.get(i), error=f.err.get(i),
+                ack_type=sc.get("ack_type") or "when_saved")
+
+
+def sig_d16(fl):
+    """EXACTLY the known finding, nothing wider (a cancelled pool future - CancelledError - is not it)"""
+    d = (fl.get("sig") or {}).get("d16") or {}
+    return (d.get("live") is True and d.get("worker_cancelled_before_ack") is True and d.get("sync") is True
+            and d.get("never_started") is True and d.get("error") == POOL_CLOSED
+            and d.get("ack_type") in ("when_executed", "when_saved"))
+
+
+def d16_registered(pid):
+    return any(k.get("property") == pid and k.get("status") == "known" and k.get("signature") == SIG_D16 for k in C.load_known())
 
 
 def mw_pre_fails(m):
@@ -856,6 +885,11 @@ class Facts:
         self.bodyin, self.bodyout, self.acks = times("body.in"), times("body.out"), times("ack")
         self.ackend = times("ack.end")       # `ack` = the ack callable was invoked, `ack.end` = the acknowledgement completed
         self.save, self.saveend = times("save"), times("save.end")     # set_result entered / the attempt has completed
+        # class and message of the error the execution of message i ended with, as post_execute / the result backend saw it
+        self.err = {}
+        for e in raw:
+            if e[1] in ("hook.post", "save") and e[3]:
+                self.err.setdefault(e[2], e[3])
         N = sc["N"]
         self.budget_t = self.takes[N - 1][0] if N and len(self.takes) >= N else None
         # run_receiver_task life cycle (sc["live"]): every call of the broker's listen() is one session
@@ -1064,6 +1098,7 @@ def replay_print(ctx, path, oracle, check):
                                    " (the callback task ended CANCELLED)" if e[1] == "cb.done" and e[3] == "cancelled" else
                                    " (%s)" % e[3] if e[1] in ("ack", "hook.aw", "hook.aw.end", "hook.begin", "hook.end", "FAULT", "REG", "WORKER.END") and e[3] else
                                    " (wait=%s, cancel_futures=%s)" % (e[2], e[3]) if e[1] == "pool.shutdown" else
+                                   " (result carries the error %s)" % e[3] if e[1] in ("hook.post", "save") and e[3] else
                                    " (taken by listen() session %d)" % e[3] if e[1] == "TAKE" and e[3] is not None else
                                    " (a task was created while this message's callback task was running)" if e[1] == "bg.new" else ""))
     print("  (%d raw events, idle polling omitted)" % len(raw))
